@@ -8,7 +8,7 @@ import itertools
 from vlib.harness.runner import Result, Part, exc_signature
 from vlib.ref import esb
 from vlib.sim.core import SimHorizon, US, MS
-from vlib.checks.linkutil import Link, WordFault, tx_entries, ack_for, unhex
+from vlib.checks.linkutil import Link, WordFault, tx_entries, ack_for, unhex, with_plus
 
 PROPERTY = "C02"
 LEVEL = "fault_enumeration"
@@ -59,7 +59,8 @@ def run_case(case, prefix=None):
     P = prefix or PREFIX
     res = Result()
     drv, peer = case.get("drv", "full"), case.get("peer", "full")
-    lk = Link(drv, peer, mcu=case.get("mcu"))
+    lk = Link(drv, peer, mcu=case.get("mcu"), plus=case.get("plus", True))
+    res.label("plus-chips" if case.get("plus", True) else "nonplus-chips")
     sim, med, T, R, ptx, prx = lk.sim, lk.med, lk.T, lk.R, lk.tx, lk.rx
     mode, arc, ardc, rate = case["mode"], case["arc"], case["ard"], case["rate"]
     # configuration pre-history on both ends: calls that re-assert documented defaults or toggle a feature and put it
@@ -414,7 +415,7 @@ def strategy(drv="full", peer="full"):
     })
 
 
-def parts(tier):
+def _parts(tier):
     if tier == "quick":
         return [Part("enum-arc<=1-fr<=1", "enum", _enum((0, 1), (0, 1)), exhaustive=True),
                 Part("enum-histories-depth4", "enum", _enum_hist(4), exhaustive=True),
@@ -424,3 +425,8 @@ def parts(tier):
             Part("enum-histories-depth5", "enum", _enum_hist(5), exhaustive=True),
             Part("enum-histories-with-read-or-listen-between-depth4", "enum", _enum_interleaved(4), exhaustive=True),
             Part("generated", "gen", strategy, n=60000)]
+
+
+def parts(tier):
+    # the chip variant (plus / non-plus) is one more dimension of every case (linkutil.with_plus)
+    return [with_plus(p) for p in _parts(tier)]
